@@ -199,9 +199,4 @@ def wfOpsB (n : Nat) : OpList Q → Bool
     wfB g && decide (nrBits g = bits.length) && (bits.all (· < n) && decide bits.Nodup) && wfOpsB n rest
 end
 
-/-- all `4^k` Pauli strings of length `k`, in lexicographic order of the encoding I Z X Y -/
-def allStrings : Nat → List (List Pauli)
-  | 0 => [[]]
-  | k + 1 => [Tableau.P.I, .Z, .X, .Y].flatMap fun p => (allStrings k).map (p :: ·)
-
 end Q1t.Conj
